@@ -44,6 +44,8 @@ def cells(tier, seed):
         for batch in ([(), (2,)] if tier == "quick" else [(), (2,), (1,), (2, 2)]):
             if "nested" in BUILDERS[a].tags and len(batch) > 1:
                 continue
+            if "eig" in BUILDERS[a].tags and batch:
+                continue
             if a in ("BlockDiagDim", "TransposePermutation") and batch:
                 continue
             for g in UNARY:
